@@ -281,6 +281,47 @@ func (ld *Layerdefs) errorIfParent(layer *Layerinfo) error {
 }
 
 
+// holdsOnlyInitialContent tells whether the layer's directory contains nothing beyond what
+// AddLayer itself creates, so that deleting it outright cannot destroy anything
+func (ld *Layerdefs) holdsOnlyInitialContent(layer *Layerinfo) bool {
+	allowedDirs := map[string]bool{layer.LayerPath: true}
+	allowedFiles := map[string]bool{ld.layerconfigFilePath(layer): true}
+	allowDirChain := func (dir string) {
+		for len(dir) > len(layer.LayerPath) {
+			allowedDirs[dir] = true
+			dir = path.Dir(dir)
+		}
+	}
+	allowDirChain(ld.buildPath(layer))
+	var bashrc string
+	if len(layer.Base) > 0 {
+		allowDirChain(ld.ovfsWorkPath(layer))
+		allowDirChain(ld.ovfsUpperPath(layer))
+	} else {
+		rootuserPath := path.Join(ld.buildPath(layer), "root")
+		allowedDirs[rootuserPath] = true
+		bashrc = path.Join(rootuserPath, ".bashrc")
+	}
+	pristine := true
+	filepath.Walk(layer.LayerPath, func (name string, info os.FileInfo, err error) error {
+		if err != nil {
+			pristine = false
+		} else if info.IsDir() {
+			pristine = pristine && allowedDirs[name]
+		} else if !info.Mode().IsRegular() {
+			pristine = false
+		} else if name == bashrc {
+			contents, err := fs.ReadFile(name)
+			pristine = pristine && err == nil && contents == defaults.BaseLayerRootBashrc
+		} else {
+			pristine = pristine && allowedFiles[name]
+		}
+		return nil
+	})
+	return pristine
+}
+
+
 func (ld *Layerdefs) RemoveLayer(name string, removeFiles bool) error {
 	err := ld.testName(nametest{name, name_need, "Layer"})
 	if nil != err {
@@ -305,7 +346,7 @@ func (ld *Layerdefs) RemoveLayer(name string, removeFiles bool) error {
 		return err
 	}
 
-	if removeFiles || layer.State == Layerstate_complete {
+	if removeFiles || ld.holdsOnlyInitialContent(layer) {
 		err = fs.Remove(layer.LayerPath)
 		if err != nil {
 			return err
